@@ -217,4 +217,21 @@ class Check(PropertyCheck):
                     lp = nx.dag_longest_path_length(H, weight="w")
                     if lp != sched.makespan():
                         res.append(("longest-path", f"longest duration-weighted path {lp} != makespan {sched.makespan()}"))
+                    # the same machine sequences handed to a Schedule through its public `schedule` setter (a schedule that no
+                    # dispatcher built): its solved graph's longest path never exceeds ITS makespan, which is the latest end time
+                    if sched.is_complete():
+                        import jsl
+                        from job_shop_lib.graphs import build_solved_disjunctive_graph
+                        s2 = jsl.Schedule(impl.instance)
+                        s2.schedule = [list(ms) for ms in sched.schedule]
+                        want_mk = max((x.end_time for ms in s2.schedule for x in ms), default=0)
+                        g2 = build_solved_disjunctive_graph(s2)
+                        H2 = nx.DiGraph()
+                        for u, v in g2.graph.edges():
+                            nu = g2.nodes[u]
+                            H2.add_edge(u, v, w=nu.operation.duration if nu.node_type.name == "OPERATION" else 0)
+                        lp2 = nx.dag_longest_path_length(H2, weight="w") if nx.is_directed_acyclic_graph(H2) else -1
+                        if s2.makespan() != want_mk or lp2 > s2.makespan():
+                            res.append(("longest-path", f"a schedule given its machine sequences through the `schedule` setter: makespan() = "
+                                        f"{s2.makespan()}, latest end time {want_mk}, longest path of its solved graph {lp2}"))
         return res
